@@ -277,7 +277,9 @@ func (e *Environment) makeRef(name string) (*Reference, bool) {
 			ref = r // set and return the original ref instead of ref of ref.
 		}
 		orig.store[name] = ref
-		if !Constant(name) && obj.Type() != FUNC {
+		// Only top level constants and functions are the same for every call: a parameter or local of an enclosing
+		// call differs from call to call whatever its name (func mk(N) {x => x + N}) or type (func mk(f) {x => f(x)}).
+		if ref.RefEnv.outer != nil || (!Constant(name) && obj.Type() != FUNC) {
 			orig.getMiss++ // creating a ref to a non constant is a miss.
 			log.Debugf("makeRef(%s) GETMISS %d", name, orig.getMiss)
 		}
@@ -303,7 +305,7 @@ func (e *Environment) Get(name string) (Object, bool) {
 	obj, ok := e.store[name]
 	if ok {
 		// using references to non constant (extensions are constants) implies uncacheable.
-		if r, ok := obj.(Reference); ok && !Constant(r.Name) && r.ObjValue().Type() != FUNC {
+		if r, ok := obj.(Reference); ok && (r.RefEnv.outer != nil || (!Constant(r.Name) && r.ObjValue().Type() != FUNC)) {
 			e.getMiss++
 			log.Debugf("get(%s) GETMISS %d", name, e.getMiss)
 		}
